@@ -337,4 +337,40 @@ theorem not_rotation_invariant : ∃ (info : Norm3DInfo) (size : ℝ) (pts : Lis
 
 example : InRange k2info k2pts.length := by simp [InRange, k2info, k2pts]
 
+section independence
+variable {S : Type}
+/-- **every frame and person is normalised on its own**: entry `(f, q)` of the result is the 3-D normalisation of entry `(f, q)` of the input — of nothing else —,
+    zero-filled by that entry's own missing flags; the missing pattern is returned unchanged -/
+theorem normalize3DBody_independent [Inhabited S] (sc : Scalar S) (isZero : S → Bool) (info : Norm3DInfo) (size : S) (b : PBody S) (out : A4 S) (m : A4 Bool)
+    (h : normalize3DBody sc isZero info size b = some (out, m)) (hs : b.data.length = b.missing.length)
+    (hs2 : ∀ f, (b.data.getD f []).length = (b.missing.getD f []).length) (f q : Nat) (hq : q < (b.data.getD f []).length) :
+    m = b.missing ∧
+    (out.getD f []).getD q [] =
+      List.zipWith (List.zipWith fun x (mm : Bool) => if mm then sc.zero else x)
+        ((normalize3DPerson sc info size (((b.data.getD f []).getD q []).map toV3)).map ofV3) ((b.missing.getD f []).getD q []) := by
+  unfold normalize3DBody at h
+  split at h
+  · cases h
+  · simp only [Option.some.injEq, Prod.mk.injEq] at h
+    obtain ⟨rfl, rfl⟩ := h
+    refine ⟨rfl, ?_⟩
+    unfold zeroFill4
+    have h1 := getD_zipWith' (List.zipWith (List.zipWith (List.zipWith fun x (mm : Bool) => if mm then sc.zero else x)))
+      (b.data.map (List.map fun pe => (normalize3DPerson sc info size (pe.map toV3)).map ofV3)) b.missing (by simpa using hs) f [] []
+    simp only [List.zipWith_nil_left] at h1
+    rw [h1]
+    have hf : ((b.data.map (List.map fun pe => (normalize3DPerson sc info size (pe.map toV3)).map ofV3)).getD f []) =
+        (b.data.getD f []).map fun pe => (normalize3DPerson sc info size (pe.map toV3)).map ofV3 := by
+      simp only [List.getD_eq_getElem?_getD, List.getElem?_map]
+      cases b.data[f]? <;> simp
+    rw [hf]
+    have h2 := getD_zipWith' (List.zipWith (List.zipWith fun x (mm : Bool) => if mm then sc.zero else x))
+      ((b.data.getD f []).map fun pe => (normalize3DPerson sc info size (pe.map toV3)).map ofV3) (b.missing.getD f []) (by simpa using hs2 f) q [] []
+    simp only [List.zipWith_nil_left] at h2
+    rw [h2]
+    congr 1
+    simp only [List.getD_eq_getElem?_getD] at hq ⊢
+    simp only [List.getElem?_map, List.getElem?_eq_getElem hq, Option.map_some, Option.getD_some]
+end independence
+
 end PoseVerif.Props.C13
